@@ -172,6 +172,9 @@ func builtinArraySplice(call FunctionCall) Value {
 	deleteCount := length - start
 	if arg, ok := call.getArgument(1); ok {
 		deleteCount = valueToRangeIndex(arg, length-start, true)
+	} else if len(call.ArgumentList) == 0 {
+		// Without a start nothing is removed (15.4.4.12 step 7).
+		deleteCount = 0
 	}
 	valueArray := make([]Value, deleteCount)
 
